@@ -417,6 +417,18 @@ func (ex *Exec) Run() {
 		pvars = append(pvars, sig.Params().At(i))
 	}
 	pnames, rnames := calleeNames(sig)
+	if con != nil {
+		if cn := contractParamNames(con.Sig); len(cn) == len(pnames) {
+			for i := range cn {
+				if cn[i] != pnames[i] {
+					if ex.paramAlias == nil {
+						ex.paramAlias = map[string]string{}
+					}
+					ex.paramAlias[cn[i]] = pnames[i]
+				}
+			}
+		}
+	}
 	entryVals := map[*types.Var]Term{}
 	type cwp struct {
 		t  Term
